@@ -14,8 +14,7 @@ from .. import gen_tree as GT
 from ..common import call, mk_result, run_cli, viol, internal_violations
 from ..model import Model, cli_discovers_root_top
 from ..oracles import check_strict_verify, check_cli_agrees, write_violations
-from .. import grammar as G
-from ..seam import Seam, orig as _o
+from ..seam import Seam
 from ..world import World, blocking_manifest
 
 ID = 'C01'
@@ -67,19 +66,6 @@ def generate(rng, tier, idx, keep_going=False):
             'tree': g['tree'], 'manifests': g['manifests'], 'muts': muts, 'ops': ops}
 
 
-def _other_tree(w):
-    """A small consistent Manifest tree next to the world (not inside it)."""
-    t0 = os.path.join(w.base, '.tree0')
-    if not os.path.isdir(t0):
-        _o['os.mkdir'](t0)
-        _o['os.mkdir'](os.path.join(t0, 'sub'))
-        with _o['open'](os.path.join(t0, 'sub', 'f'), 'w') as f:
-            f.write('clean')
-        with _o['open'](os.path.join(t0, 'Manifest'), 'w') as f:
-            f.write(G.dump([{'tag': 'DATA', 'path': 'sub/f', 'size': 5, 'sums': G.digests(b'clean', ['SHA256'])}]))
-    return t0
-
-
 def execute(sc):
     violations = []
     zones = {}
@@ -126,7 +112,7 @@ def execute(sc):
                     target = os.path.join(w.root, sub) if sub else w.root
                     cli = run_cli(['verify', target])
                     if op.get('multi'):
-                        t0 = _other_tree(w)
+                        t0 = w.other_tree()
                         cli2 = run_cli(['verify'] + ([target, t0] if op['multi'] == 'first' else [t0, target]))
             results.append(r)
             vs, zone = check_strict_verify(v, r, 'verify(%r,last_mtime=%r)' % (sub, lm))
